@@ -733,6 +733,25 @@ MiniEngine hash_engine() {
     e.name = "hash";
     e.prop = "C05";
     e.cpu_limit = 400; // hundreds of ids x thousands of attempts x twin
+    e.summary = [](const J& c) {
+        J s = J::obj();
+        s.set("policy", c.gets("policy", ""));
+        s.set("id_family", c.geti("family", 0));
+        J steps = J::arr();
+        for (auto& st : c.at("steps").a) {
+            J o = J::obj();
+            std::size_t ids = 0;
+            for (auto& cl : st.at("classes").a)
+                ids += cl.a.size();
+            o.set("classes", J((unsigned long long)st.at("classes").a.size()));
+            o.set("ids", J((unsigned long long)ids));
+            o.set("seed", J((unsigned long long)st.getu("seed", 0)));
+            o.set("budget", J((unsigned long long)st.getu("budget", 0)));
+            steps.push(o);
+        }
+        s.set("steps", steps);
+        return s;
+    };
     e.gen = hash_gen;
     e.run = hash_run;
     e.shrinks = hash_shrinks;
